@@ -195,10 +195,6 @@ end Pcore.LoaderConc
 /-! ### second tie: the regenerated lock-set table -/
 namespace Pcore.Lockset
 
-/-- the two accesses cannot overlap in time: both hold one mutex, at least one of them exclusively -/
-def excl (a b : Access) : Bool :=
-  a.held.any fun ha => b.held.any fun hb => ha.1 == hb.1 && (ha.2 == .w || hb.2 == .w)
-
 /-- a data race between two access sites: same field, at least one write, both after initialisation, nothing excludes them -/
 def Race (a b : Access) : Prop :=
   a.field = b.field ∧ (a.write = true ∨ b.write = true) ∧ a.init = false ∧ b.init = false ∧ excl a b = false
